@@ -65,6 +65,7 @@ func ge(a, b lin) cons { return le(b, a) }                                      
 func eqc(a, b lin) []cons { return []cons{le(a, b), le(b, a)} }                           // a == b
 
 type LB struct {
+	side          map[*ssa.BinOp]int // 0 unknown, 1 proving, 2 proven, 3 failed
 	p             *Prog
 	f             *ssa.Function
 	maxCons       int
@@ -148,6 +149,10 @@ func (lb *LB) linOf(v ssa.Value) lin {
 			if _, uns, _ := intKind(x.Type()); !uns {
 				return lb.linOf(x.X).addScaled(lb.linOf(x.Y), -1)
 			}
+			// unsigned: linear only if the subtraction cannot wrap — recorded as a side condition
+			if lb.sideOK(x) {
+				return lb.linOf(x.X).addScaled(lb.linOf(x.Y), -1)
+			}
 		case token.MUL:
 			a, b := lb.linOf(x.X), lb.linOf(x.Y)
 			if len(a.c) == 0 && abs64(a.k) < 1<<20 {
@@ -200,6 +205,27 @@ func (lb *LB) linOf(v ssa.Value) lin {
 	return linVar(lvar{0, v})
 }
 
+// sideOK: the unsigned subtraction x.X - x.Y provably does not wrap at its own program point
+func (lb *LB) sideOK(x *ssa.BinOp) bool {
+	if lb.side == nil {
+		lb.side = map[*ssa.BinOp]int{}
+	}
+	switch lb.side[x] {
+	case 1, 3:
+		return false
+	case 2:
+		return true
+	}
+	lb.side[x] = 1
+	ok := lb.prove([]cons{ge(lb.linOf(x.X), lb.linOf(x.Y))}, x.Block(), nil, map[lvar]lin{}, 2)
+	if ok {
+		lb.side[x] = 2
+	} else {
+		lb.side[x] = 3
+	}
+	return ok
+}
+
 func abs64(x int64) int64 {
 	if x < 0 {
 		return -x
@@ -233,7 +259,74 @@ func (lb *LB) lenLin(v ssa.Value) lin {
 			return linConst(int64(len(s)))
 		}
 	}
+	if g := globalOf(v); g != nil {
+		if n, ok := globalSliceLen(g); ok {
+			return linConst(n)
+		}
+	}
 	return linVar(lvar{1, lenBase(v)})
+}
+
+var globalLenCache = map[*ssa.Global]int64{}
+
+// globalSliceLen: a package-level slice assigned exactly once, in the package initialiser,
+// from a literal / make of constant length.
+func globalSliceLen(g *ssa.Global) (int64, bool) {
+	if n, ok := globalLenCache[g]; ok {
+		return n, n >= 0
+	}
+	res := int64(-1)
+	defer func() { globalLenCache[g] = res }()
+	if g.Pkg == nil {
+		return 0, false
+	}
+	stores := 0
+	var val ssa.Value
+	var scan func(f *ssa.Function)
+	scan = func(f *ssa.Function) {
+		instrsOf(f, func(_ *ssa.BasicBlock, in ssa.Instruction) {
+			if st, ok := in.(*ssa.Store); ok && st.Addr == ssa.Value(g) {
+				stores++
+				if f.Name() == "init" {
+					val = st.Val
+				} else {
+					stores += 100
+				}
+			}
+			// address taken elsewhere (could be written through a pointer): be conservative
+			for _, op := range in.Operands(nil) {
+				if *op == ssa.Value(g) {
+					switch in.(type) {
+					case *ssa.Store, *ssa.UnOp:
+					default:
+						stores += 100
+					}
+				}
+			}
+		})
+		for _, a := range f.AnonFuncs {
+			scan(a)
+		}
+	}
+	for _, m := range g.Pkg.Members {
+		if f, ok := m.(*ssa.Function); ok {
+			scan(f)
+		}
+	}
+	if stores != 1 || val == nil {
+		return 0, false
+	}
+	switch x := val.(type) {
+	case *ssa.Slice:
+		if n, ok := staticLen(x.X.Type()); ok && x.Low == nil && x.High == nil {
+			res = n
+		}
+	case *ssa.MakeSlice:
+		if n, ok := constInt(x.Len); ok {
+			res = n
+		}
+	}
+	return res, res >= 0
 }
 
 func constString(c *ssa.Const) (string, bool) {
@@ -333,6 +426,21 @@ func (lb *LB) inductionLower(phi *ssa.Phi) (lin, bool) {
 	return l, true
 }
 
+// sameBackEdges: both phis take their increment on exactly the same incoming edges
+func sameBackEdges(a, b *ssa.Phi) bool {
+	if a.Block() != b.Block() || len(a.Edges) != 2 {
+		return false
+	}
+	for i := range a.Edges {
+		_, ca := constInt(a.Edges[i])
+		_, cb := constInt(b.Edges[i])
+		if ca != cb {
+			return false
+		}
+	}
+	return true
+}
+
 func (lb *LB) inductionUpper(phi *ssa.Phi) (lin, bool) {
 	var init ssa.Value
 	for _, e := range phi.Edges {
@@ -409,7 +517,7 @@ func (lb *LB) defFacts(v lvar) []cons {
 	bits, uns, ok := intKind(val.Type())
 	if ok && uns {
 		out = append(out, ge(me, linConst(0)))
-		if bits < 32 {
+		if bits <= 32 {
 			out = append(out, le(me, linConst(int64(1)<<uint(bits)-1)))
 		}
 	}
@@ -490,6 +598,20 @@ func (lb *LB) defFacts(v lvar) []cons {
 		}
 		if l, ok := lb.inductionUpper(x); ok {
 			out = append(out, le(me, l))
+		}
+		// lockstep induction: two counters of one loop header advancing once per back edge
+		if iv, ok := inductionOf(x); ok && iv.step != 0 {
+			for _, q := range phisOf(x.Block()) {
+				if q == x {
+					continue
+				}
+				if jv, ok := inductionOf(q); ok && jv.step != 0 && sameBackEdges(x, q) {
+					// (x - x0)*sj == (q - q0)*si
+					l := me.addScaled(linConst(iv.init), -1).scale(jv.step)
+					r := linVar(lvar{0, q}).addScaled(linConst(jv.init), -1).scale(iv.step)
+					out = append(out, eqc(l, r)...)
+				}
+			}
 		}
 	case *ssa.Call:
 		if _, name, _, _, ok := bigMethod(x); ok {
